@@ -228,10 +228,10 @@ def _gen_lagrange(rng, maxn=5):
 
 def generate(rng, tier, scale=1):
     quick = tier == "quick"
-    n_expr = (1400 if quick else 40000) * scale
-    n_laws = (300 if quick else 8000) * scale
-    n_eq = (300 if quick else 6000) * scale
-    n_lag = (250 if quick else 5000) * scale
+    n_expr = (4000 if quick else 40000) * scale
+    n_laws = (1000 if quick else 8000) * scale
+    n_eq = (800 if quick else 6000) * scale
+    n_lag = (600 if quick else 5000) * scale
     depth = 3 if quick else 4
     cases = []
     if scale == 1:
@@ -295,7 +295,10 @@ def _build(t):
     if op == "empty":
         return Poly(zero=Z)
     if op == "x":
-        return X0                      # the module-level monomial (its zero is the float 0.)
+        # the monomial x with an int coefficient like the module-level `x`, but with the exact zero: the module's
+        # own `x` carries zero=0. (float), so that an empty result evaluates to the float 0.0 and later sums
+        # leave the exact regime (lagrange.poly uses the module-level `x`; that path is observed in entry "lagrange")
+        return Poly({1: 1}, zero=Z)
     if op == "neg":
         return -_build(t[1])
     if op == "pos":
